@@ -24,6 +24,50 @@ pub fn program15() -> Prog {
     Prog::new("eval-host", p, true)
 }
 
+/// A second host: labels more than 256 and more than 1024 words away from the origin (beyond
+/// the reach of every PC-relative field measured from the first statement), with code next to them.
+pub fn program15_long() -> Prog {
+    let mut p = Program::default();
+    p.push(Some("first"), Stmt::Add(1, 1, Src2::Imm(Lit::dec(1))));
+    p.push(Some("end"), Stmt::Named(0x25, "halt"));
+    p.push(Some("pad"), Stmt::Blkw(Lit::dec(300)));
+    p.push(Some("mid"), Stmt::Add(0, 0, Src2::Imm(Lit::dec(0))));
+    p.push(Some("midval"), Stmt::Fill(Lit::hex(0x0042)));
+    p.push(Some("padb"), Stmt::Blkw(Lit::dec(1100)));
+    p.push(Some("near"), Stmt::Add(0, 0, Src2::Imm(Lit::dec(0))));
+    p.push(Some("sub"), Stmt::Ret);
+    p.push(Some("val"), Stmt::Fill(Lit::hex(0x1234)));
+    p.push(Some("ptr"), Stmt::Fill(Lit::hex(0x3000)));
+    Prog::new("eval-host-long", p, true)
+}
+
+pub fn workload_long(prog: &Prog) -> Vec<Work> {
+    let mut w = Vec::new();
+    let orig = prog.image.origin();
+    let mut pcs = vec![orig, orig + 1];
+    for l in ["mid", "midval", "near", "sub", "val"] {
+        pcs.push(prog.addr_of(l));
+        pcs.push(prog.addr_of(l) + 1);
+    }
+    for pc in pcs {
+        for (label, _) in &prog.image.labels {
+            let target = prog.addr_of(label);
+            for (m, op) in [("ld", 0x2000u16), ("ldi", 0xA000), ("lea", 0xE000), ("st", 0x3000), ("sti", 0xB000)] {
+                if m == "sti" && label != "ptr" {
+                    continue;
+                }
+                if m == "ldi" && !(label == "ptr") {
+                    continue;
+                }
+                w.push(Work { space: "label-operand/far-from-origin", regs: vec![(5, 0x5151)], pc, text: format!("{m} r5 {label}"), word: pcrel_word(op, 5, 9, pc, target), open: None, jump: false, before: None });
+            }
+            w.push(Work { space: "label-operand/far-from-origin/jsr", regs: vec![], pc, text: format!("jsr {label}"), word: pcrel_word(0x4800, 0, 11, pc, target).map(|x| x & 0x4FFF | 0x4800), open: Some(7), jump: false, before: None });
+            w.push(Work { space: "label-operand/far-from-origin/call", regs: vec![], pc, text: format!("call {label}"), word: pcrel_word(0xDC00, 0, 10, pc, target).map(|x| x & 0x03FF | 0xDC00), open: Some(8), jump: false, before: None });
+        }
+    }
+    w
+}
+
 #[derive(Debug, Clone)]
 pub struct Work {
     pub space: &'static str,
@@ -233,18 +277,21 @@ pub fn judge(prog: &Prog, wk: &Work) -> Result<Pause, Mismatch> {
 
 pub fn run(ctx: &Ctx) -> i32 {
     let _ = super::variant::measured();
-    let prog = program15();
-    let work = workload(ctx.tier, &prog);
-    let parts = pooled(Some(Env::new(true)), work.len(), 16, Acc::new, |acc, i| {
-        let wk = &work[i];
+    let progs = [program15(), program15_long()];
+    let works = [workload(ctx.tier, &progs[0]), workload_long(&progs[1])];
+    let n0 = works[0].len();
+    let parts = pooled(Some(Env::new(true)), n0 + works[1].len(), 16, Acc::new, |acc, k| {
+        let (host, i) = if k < n0 { (0, k) } else { (1, k - n0) };
+        let prog = &progs[host];
+        let wk = &works[host][i];
         acc.eval(wk.space);
         if wk.word.is_none() && wk.space != "refused" && wk.space != "surplus-token" {
             acc.skip("label too far from the current PC for the instruction's offset field");
             return;
         }
-        let mut r = judge(&prog, wk);
+        let mut r = judge(prog, wk);
         if r.is_err() {
-            r = confirm_fresh(|| judge(&prog, wk));
+            r = confirm_fresh(|| judge(prog, wk));
         }
         match r {
             Ok(p) => {
@@ -256,6 +303,9 @@ pub fn run(ctx: &Ctx) -> i32 {
                 if wk.jump && wk.word.is_some() && wk.pc < prog.image.origin() {
                     acc.gate("label-operand-with-pc-below-origin");
                 }
+                if host == 1 && wk.word.is_some() && wk.pc > prog.image.origin() + 1024 {
+                    acc.gate("label-operand-beyond-1024-words-from-origin");
+                }
                 acc.outcome(format!("{}/{:?}", wk.space, p));
                 if i % 503 == 0 {
                     acc.sample(format!("{i}"), json!({"script": format!("goto x{:04x};eval {};move r6 #123;exit", wk.pc, wk.text), "reference_word": wk.word.map(|w| format!("x{w:04X}"))}));
@@ -263,7 +313,7 @@ pub fn run(ctx: &Ctx) -> i32 {
             }
             Err(m) => {
                 acc.outcome(format!("violation:{}", m.sig));
-                acc.violation(format!("C15/{}", m.sig), m.what, json!({"source": prog.text, "work_index": i, "tier": ctx.tier.name(), "regs": wk.regs, "pc": wk.pc, "eval": wk.text, "reference_word": wk.word}));
+                acc.violation(format!("C15/{}", m.sig), m.what, json!({"source": prog.text, "host": host, "work_index": i, "tier": ctx.tier.name(), "regs": wk.regs, "pc": wk.pc, "eval": wk.text, "reference_word": wk.word}));
             }
         }
     });
@@ -272,18 +322,19 @@ pub fn run(ctx: &Ctx) -> i32 {
         ctx,
         acc,
         Level { category: "model_checking", bfs: None },
-        "bounded-exhaustive enumeration of `move ...; goto a; eval <text>; move r6 #123; exit` sessions on a host program with labels before and after every PC: ALU forms over register fields x covering operand values at two PCs; LDR/STR with offsets at the field limits and bases at both ends of memory; LD/LDI/LEA/ST/STI/JSR/CALL with a label operand for every label x EVERY current PC of the program, and LD/LEA/ST/JSR for every label with the PC outside the program (below the origin - reached with `eval jmp`, since goto refuses it - above the program, x0000, xFFFE), and the same and a similar text evaluated twice in one session at different PCs; JMP/JSRR/RET, PUSH/POP/RETS, printing traps; 66 malformed or off-limits texts, and three instructions followed or preceded by each token of a 32-token alphabet (every lexical kind incl. every directive) (BR*, RTI, HALT, trap vectors outside x20-x27, missing / surplus / wrong-kind operands, two instructions, directives, non-instructions). Oracle: reference executes the ISA encoding of the instruction with label operands denoting the label's address and PC unchanged unless the instruction jumps; R7 written by JSR/JSRR and the word pushed by CALL are left open; refused texts leave all state unchanged and the following `move r6` still takes effect. non-trivial = sessions that agreed",
+        "bounded-exhaustive enumeration of `move ...; goto a; eval <text>; move r6 #123; exit` sessions on a host program with labels before and after every PC: ALU forms over register fields x covering operand values at two PCs; LDR/STR with offsets at the field limits and bases at both ends of memory; LD/LDI/LEA/ST/STI/JSR/CALL with a label operand for every label x EVERY current PC of the program, and LD/LEA/ST/JSR for every label with the PC outside the program (below the origin - reached with `eval jmp`, since goto refuses it - above the program, x0000, xFFFE), and the same and a similar text evaluated twice in one session at different PCs; the label forms again on a second host whose labels lie 300 and 1400 words from the origin, at 12 PCs next to them; JMP/JSRR/RET, PUSH/POP/RETS, printing traps; 66 malformed or off-limits texts, and three instructions followed or preceded by each token of a 32-token alphabet (every lexical kind incl. every directive) (BR*, RTI, HALT, trap vectors outside x20-x27, missing / surplus / wrong-kind operands, two instructions, directives, non-instructions). Oracle: reference executes the ISA encoding of the instruction with label operands denoting the label's address and PC unchanged unless the instruction jumps; R7 written by JSR/JSRR and the word pushed by CALL are left open; refused texts leave all state unchanged and the following `move r6` still takes effect. non-trivial = sessions that agreed",
         true,
-        &["executed-and-equal", "refused-and-alive", "label-operand-away-from-origin", "label-operand-with-pc-below-origin"],
+        &["executed-and-equal", "refused-and-alive", "label-operand-away-from-origin", "label-operand-with-pc-below-origin", "label-operand-beyond-1024-words-from-origin"],
         &["literal PC offsets are not generated (unspecified by the property)"],
         json!({}),
     )
 }
 
 pub fn replay(_ctx: &Ctx, case: &Value) -> Option<Option<String>> {
-    let prog = program15();
+    let long = case["host"].as_u64() == Some(1);
+    let prog = if long { program15_long() } else { program15() };
     let tier = if case["tier"].as_str() == Some("thorough") { Tier::Thorough } else { Tier::Quick };
-    let work = workload(tier, &prog);
+    let work = if long { workload_long(&prog) } else { workload(tier, &prog) };
     let wk = work.get(case["work_index"].as_u64()? as usize)?;
     Some(confirm_fresh(|| judge(&prog, wk)).err().map(|m| format!("{}: {}", m.sig, m.what)))
 }
